@@ -200,3 +200,471 @@ Proof.
       rewrite <- !(vsum_perm _ _ _ _ Hperm). fold h.
       rewrite <- Dl_vsum by exact Htw. lia.
 Qed.
+
+(* ====================================================================== *)
+(* Part 2: k-way kk                                                        *)
+(* ====================================================================== *)
+
+(* number of ids of [l] that the array [p] sends to part [q] *)
+Fixpoint cnti (p : list N) (q : N) (l : list nat) : Z :=
+  match l with
+  | [] => 0
+  | i :: t => (match nth_opt p i with Some x => if (x =? q)%N then 1 else 0 | None => 0 end) + cnti p q t
+  end.
+
+Lemma cnti_perm p q l l' : Permutation l l' -> cnti p q l = cnti p q l'.
+Proof. induction 1; cbn [cnti]; try lia. Qed.
+
+Lemma cnti_ext p p' q l : (forall i, In i l -> nth_opt p i = nth_opt p' i) -> cnti p q l = cnti p' q l.
+Proof.
+  induction l as [|i t IH]; cbn [cnti]; intros H; auto.
+  rewrite (H i) by (now left). rewrite IH; auto. intros j Hj. apply H. now right.
+Qed.
+
+Lemma vsum_app p q l1 l2 : vsum p q (l1 ++ l2) = vsum p q l1 + vsum p q l2.
+Proof. induction l1 as [|[w i] t IH]; cbn [app vsum]; [reflexivity|rewrite IH; lia]. Qed.
+
+Lemma vsum_shift p q c l :
+  vsum p q (map (fun x : item => (fst x - c, snd x)) l) = vsum p q l - c * cnti p q (ids l).
+Proof.
+  induction l as [|[w i] t IH]; cbn [map vsum ids cnti fst snd]; [lia|].
+  fold (ids t). rewrite IH. destruct (nth_opt p i) as [x|]; [destruct (x =? q)%N|]; lia.
+Qed.
+
+Lemma vsum_zero p q l : (forall x, In x l -> fst x = 0) -> vsum p q l = 0.
+Proof.
+  induction l as [|[w i] t IH]; cbn [vsum]; intros H; auto.
+  rewrite IH by (intros x Hx; apply H; now right).
+  assert (w = 0) by (apply (H (w, i)); now left). subst.
+  destruct (nth_opt p i) as [x|]; [destruct (x =? q)%N|]; lia.
+Qed.
+
+Lemma ids_concat (H : list row) : ids (concat H) = concat (map ids H).
+Proof. unfold ids. apply concat_map. Qed.
+
+Lemma perm_concat {A} (l l' : list (list A)) : Permutation l l' -> Permutation (concat l) (concat l').
+Proof.
+  induction 1; cbn [concat]; auto.
+  - now apply Permutation_app_head.
+  - rewrite !app_assoc. apply Permutation_app_tail, Permutation_app_comm.
+  - etransitivity; eauto.
+Qed.
+
+Lemma NoDup_app_intro {A} (l1 l2 : list A) :
+  NoDup l1 -> NoDup l2 -> (forall x, In x l1 -> ~ In x l2) -> NoDup (l1 ++ l2).
+Proof.
+  induction l1 as [|x t IH]; intros H1 H2 Hd; cbn [app]; auto.
+  inversion H1; subst. constructor.
+  - intro C. apply in_app_or in C as [C|C]; [contradiction|]. apply (Hd x); [now left|exact C].
+  - apply IH; auto. intros y Hy. apply Hd. now right.
+Qed.
+
+Lemma NoDup_app_elim {A} (l1 l2 : list A) :
+  NoDup (l1 ++ l2) -> NoDup l1 /\ NoDup l2 /\ (forall x, In x l1 -> ~ In x l2).
+Proof.
+  induction l1 as [|x t IH]; cbn [app]; intros H.
+  - repeat split; auto. constructor.
+  - inversion H as [|? ? Hx Ht]; subst. destruct (IH Ht) as [N1 [N2 Hd]]. repeat split; auto.
+    + constructor; auto. intro C. apply Hx. apply in_or_app. now left.
+    + intros y [<-|Hy]; [intro C; apply Hx; apply in_or_app; now right|now apply Hd].
+Qed.
+
+Lemma combine_fst {A B} (a : list A) (c : list B) : length a = length c -> map fst (combine a c) = a.
+Proof. revert c; induction a as [|x a IH]; intros [|y c] H; cbn in *; try lia; auto. f_equal. apply IH. lia. Qed.
+Lemma combine_snd {A B} (a : list A) (c : list B) : length a = length c -> map snd (combine a c) = c.
+Proof. revert c; induction a as [|x a IH]; intros [|y c] H; cbn in *; try lia; auto. f_equal. apply IH. lia. Qed.
+
+Lemma Forall_set_nth {A} (Q : A -> Prop) l i v : Forall Q l -> Q v -> Forall Q (set_nth l i v).
+Proof.
+  intros H Hv. apply Forall_forall. intros x Hx. apply set_nth_In in Hx as [->|Hx]; auto.
+  rewrite Forall_forall in H. auto.
+Qed.
+
+(* `parts[b] = parts[a]` over the tuples of one step *)
+Lemma kk_apply_spec : forall ts P,
+  (forall a b, In (a, b) ts -> (a < length P)%nat /\ (b < length P)%nat) ->
+  NoDup (map snd ts) -> (forall a, In a (map fst ts) -> ~ In a (map snd ts)) ->
+  exists P', kk_apply ts P = Ok P' /\ length P' = length P
+    /\ (forall a b, In (a, b) ts -> nth_opt P' b = nth_opt P a)
+    /\ (forall i, ~ In i (map snd ts) -> nth_opt P' i = nth_opt P i)
+    /\ (forall Q : N -> Prop, Forall Q P -> Forall Q P').
+Proof.
+  induction ts as [|[a b] t IH]; intros P Hr Hnd Hdis; cbn [kk_apply].
+  - exists P. repeat split; auto. intros a b [].
+  - destruct (Hr a b (or_introl eq_refl)) as [Ha Hb].
+    destruct (nth_opt_lt P a Ha) as [pa Hpa]. rewrite Hpa.
+    apply Nat.ltb_lt in Hb as Hb'. rewrite Hb'.
+    cbn [map fst snd] in Hnd, Hdis. inversion Hnd as [|? ? Hbt Hnd']; subst.
+    destruct (IH (set_nth P b pa)) as [P' [HP' [Hl [Hcp [Hout HQ]]]]].
+    + intros a' b' H'. rewrite set_nth_length. apply Hr. now right.
+    + exact Hnd'.
+    + intros a' Ha' C. apply (Hdis a'); [now right|now right].
+    + rewrite set_nth_length in Hl. exists P'. split; [exact HP'|]. split; [exact Hl|]. split; [|split].
+      * intros a' b' [E|H'].
+        -- injection E as <- <-. rewrite (Hout b Hbt), nth_opt_set_nth_same by exact Hb. now rewrite Hpa.
+        -- rewrite (Hcp _ _ H'). apply nth_opt_set_nth_other.
+           intro; subst. apply (Hdis a'); [right; apply (in_map fst _ _ H')|now left].
+      * intros i Hi. rewrite Hout by (intro; apply Hi; now right).
+        apply nth_opt_set_nth_other. intro; subst; apply Hi; now left.
+      * intros Q HQP. apply HQ. apply Forall_set_nth; auto.
+        rewrite Forall_forall in HQP. apply HQP. eapply nth_opt_In; eauto.
+Qed.
+
+Lemma zip_vsum P P' q : forall z : list (item * item),
+  (forall x y, In (x, y) z -> nth_opt P' (snd y) = nth_opt P (snd x)) ->
+  vsum P q (map (fun ab => (fst (fst ab) + fst (snd ab), snd (fst ab))) z)
+  = vsum P q (map fst z) + vsum P' q (map snd z).
+Proof.
+  induction z as [|[[wa ia] [wb ib]] z IH]; intros H; cbn [map vsum fst snd]; [lia|].
+  rewrite IH by (intros x y Hxy; apply H; now right).
+  pose proof (H (wa, ia) (wb, ib) (or_introl eq_refl)) as E. cbn [snd] in E. rewrite E.
+  destruct (nth_opt P ia) as [x|]; [destruct (x =? q)%N|]; lia.
+Qed.
+
+Lemma zip_cnti P P' q : forall z : list (item * item),
+  (forall x y, In (x, y) z -> nth_opt P' (snd y) = nth_opt P (snd x)) ->
+  cnti P' q (ids (map snd z)) = cnti P q (ids (map fst z)).
+Proof.
+  induction z as [|[[wa ia] [wb ib]] z IH]; intros H; cbn [map cnti ids fst snd]; [lia|].
+  fold (ids (map snd z)). fold (ids (map fst z)).
+  rewrite IH by (intros x y Hxy; apply H; now right).
+  pose proof (H (wa, ia) (wb, ib) (or_introl eq_refl)) as E. cbn [snd] in E. rewrite E. reflexivity.
+Qed.
+
+(* ---------- spreads ---------- *)
+
+Definition spread_le (B : Z) (l : list Z) : Prop := forall x y, In x l -> In y l -> x - y <= B.
+
+Fixpoint ascZ (l : list Z) : Prop :=
+  match l with
+  | [] => True
+  | x :: t => (forall y, In y t -> x <= y) /\ ascZ t
+  end.
+
+Lemma ascZ_snoc l x : ascZ l -> (forall y, In y l -> y <= x) -> ascZ (l ++ [x]).
+Proof.
+  induction l as [|z t IH]; cbn [app ascZ]; intros Ha Hx.
+  - split; auto. intros y [].
+  - destruct Ha as [Hz Ht]. split.
+    + intros y Hy. apply in_app_or in Hy as [Hy|[<-|[]]]; auto. apply Hx. now left.
+    + apply IH; auto. intros y Hy. apply Hx. now right.
+Qed.
+
+Lemma descZ_rev_asc l : descZ l -> ascZ (rev l).
+Proof.
+  induction l as [|x t IH]; cbn [rev descZ]; auto. intros [Hx Ht].
+  apply ascZ_snoc; auto. intros y Hy. apply Hx. now apply in_rev.
+Qed.
+
+(* pairing a non-increasing row with a non-decreasing one does not widen the spread *)
+Lemma zip_spread B : forall a c : list item, 0 <= B ->
+  descZ (wts a) -> ascZ (wts c) -> spread_le B (wts a) -> spread_le B (wts c) ->
+  spread_le B (map (fun ab => fst (fst ab) + fst (snd ab)) (combine a c)).
+Proof.
+  induction a as [|[wa ia] a IH]; intros [|[wc ic] c] HB Hda Hac Hsa Hsc; cbn [combine map];
+    [intros x y Hx; destruct Hx | intros x y Hx; destruct Hx | intros x y Hx; destruct Hx |].
+  cbn [wts map fst descZ ascZ] in *. fold (wts a) in *. fold (wts c) in *.
+  destruct Hda as [Ha Hda]. destruct Hac as [Hc Hac].
+  assert (Hsa' : spread_le B (wts a)) by (intros x y Hx Hy; apply Hsa; now right).
+  assert (Hsc' : spread_le B (wts c)) by (intros x y Hx Hy; apply Hsc; now right).
+  specialize (IH c HB Hda Hac Hsa' Hsc').
+  assert (MEM : forall x, In x (map (fun ab : item * item => fst (fst ab) + fst (snd ab)) (combine a c)) ->
+                exists u v, In u (wts a) /\ In v (wts c) /\ x = u + v).
+  { intros x Hx. apply in_map_iff in Hx as [[ua uc] [<- Hin]].
+    exists (fst ua), (fst uc). repeat split.
+    - apply in_map. eapply in_combine_l; eauto.
+    - apply in_map. eapply in_combine_r; eauto. }
+  intros x y [<-|Hx] [<-|Hy]; cbn [fst snd].
+  - lia.
+  - destruct (MEM _ Hy) as [u [v [Hu [Hv ->]]]].
+    specialize (Ha u Hu). specialize (Hc v Hv).
+    assert (wa - u <= B) by (apply Hsa; [now left|now right]). lia.
+  - destruct (MEM _ Hx) as [u [v [Hu [Hv ->]]]].
+    specialize (Ha u Hu). specialize (Hc v Hv).
+    assert (v - wc <= B) by (apply Hsc; [now right|now left]). lia.
+  - now apply IH.
+Qed.
+
+Lemma spread_perm B l l' : Permutation l l' -> spread_le B l -> spread_le B l'.
+Proof.
+  intros P H x y Hx Hy. apply H; eapply Permutation_in; try apply Permutation_sym; eauto.
+Qed.
+
+Lemma spread_shift B c l : spread_le B l -> spread_le B (map (fun w => w - c) l).
+Proof.
+  intros H x y Hx Hy. apply in_map_iff in Hx as [x' [<- Hx]]. apply in_map_iff in Hy as [y' [<- Hy]].
+  specialize (H x' y' Hx Hy). lia.
+Qed.
+
+Lemma descZ_shift c l : descZ l -> descZ (map (fun w => w - c) l).
+Proof.
+  induction l as [|x t IH]; cbn [map descZ]; auto. intros [Hx Ht]. split; auto.
+  intros y Hy. apply in_map_iff in Hy as [y' [<- Hy]]. specialize (Hx y' Hy). lia.
+Qed.
+
+Lemma last_opt_some {A} (l : list A) : l <> [] -> exists x, last_opt l = Some x.
+Proof.
+  induction l as [|x t IH]; [congruence|]. intros _. destruct t as [|y t'].
+  - exists x. reflexivity.
+  - destruct IH as [z Hz]; [congruence|]. exists z. exact Hz.
+Qed.
+
+Lemma insert_row_perm e m : Permutation (insert_row e m) (e :: m).
+Proof.
+  induction m as [|x t IH]; cbn [insert_row]; auto.
+  destruct (ltb_row x e); auto. rewrite IH. apply perm_swap.
+Qed.
+
+Lemma sort_rows_perm m : Permutation (sort_rows_desc m) m.
+Proof. induction m as [|x t IH]; cbn; auto. rewrite insert_row_perm. constructor. exact IH. Qed.
+
+Section KWayProofs.
+  Variable srt : list item -> list item.
+  Hypothesis srt_perm : forall l, Permutation (srt l) l.
+  Hypothesis srt_desc : forall l, descZ (wts (srt l)).
+  Variables (k M : nat) (B : Z).
+  Hypothesis k_pos : (1 <= k)%nat.
+  Hypothesis B_nonneg : 0 <= B.
+
+  Definition row_ok (r : row) : Prop := length r = k /\ descZ (wts r) /\ spread_le B (wts r).
+  Definition all_ids (H : list row) : list nat := concat (map ids H).
+  Definition Inv (H : list row) : Prop :=
+    NoDup (all_ids H) /\ (forall i, In i (all_ids H) -> (i < M)%nat) /\ Forall row_ok H.
+  (* the array sends the ids of every row onto the parts 0..k-1, one each *)
+  Definition good (P : list N) (H : list row) : Prop :=
+    forall r, In r H -> forall q, (q < k)%nat -> cnti P (N.of_nat q) (ids r) = 1.
+  Definition vload (P : list N) (q : N) (H : list row) : Z := vsum P q (concat H).
+
+  Lemma all_ids_perm H H' : Permutation H H' -> Permutation (all_ids H) (all_ids H').
+  Proof. intros P. unfold all_ids. apply perm_concat. now apply Permutation_map. Qed.
+
+  Lemma Inv_perm H H' : Permutation H H' -> Inv H -> Inv H'.
+  Proof.
+    intros P [I1 [I2 I3]]. pose proof (all_ids_perm _ _ P) as Pa. repeat split.
+    - eapply Permutation_NoDup; eauto.
+    - intros i Hi. apply I2. eapply Permutation_in; [apply Permutation_sym; exact Pa|exact Hi].
+    - rewrite Forall_forall in *. intros r Hr. apply I3. eapply Permutation_in; [apply Permutation_sym; exact P|exact Hr].
+  Qed.
+
+  Lemma good_perm P H H' : Permutation H H' -> good P H -> good P H'.
+  Proof. intros Pm G r Hr. apply G. eapply Permutation_in; [apply Permutation_sym; exact Pm|exact Hr]. Qed.
+
+  Lemma vload_perm P q H H' : Permutation H H' -> vload P q H = vload P q H'.
+  Proof. intros Pm. unfold vload. apply vsum_perm. now apply perm_concat. Qed.
+
+  Lemma merge_facts a b tuples e : length a = k -> length b = k ->
+    kk_merge srt a b = Some (tuples, e) ->
+    let z := combine a (rev b) in
+    exists e1 c, tuples = map (fun ab : item * item => (snd (fst ab), snd (snd ab))) z
+      /\ Permutation e1 (map (fun ab : item * item => (fst (fst ab) + fst (snd ab), snd (fst ab))) z)
+      /\ descZ (wts e1) /\ e = map (fun x : item => (fst x - c, snd x)) e1
+      /\ map fst z = a /\ map snd z = rev b.
+  Proof.
+    intros La Lb Hm z. unfold kk_merge in Hm. fold z in Hm.
+    destruct (last_opt _) as [lst|] eqn:El; [|discriminate]. injection Hm as <- <-.
+    eexists _, (fst lst). split; [reflexivity|]. split; [apply srt_perm|]. split; [apply srt_desc|].
+    split; [reflexivity|]. unfold z. split; [apply combine_fst|apply combine_snd]; rewrite rev_length; lia.
+  Qed.
+
+  Lemma merge_some a b : length a = k -> length b = k -> exists te, kk_merge srt a b = Some te.
+  Proof.
+    intros La Lb. unfold kk_merge.
+    match goal with |- context [last_opt ?x] => destruct (last_opt_some x) as [lst Hl] end.
+    - intro C. match type of C with srt ?e0 = [] => pose proof (Permutation_length (srt_perm e0)) as L end.
+      rewrite C in L. rewrite map_length, combine_length, rev_length in L. cbn in L. lia.
+    - rewrite Hl. eexists; reflexivity.
+  Qed.
+
+  Lemma ids_shift c (l : list item) : ids (map (fun x : item => (fst x - c, snd x)) l) = ids l.
+  Proof. unfold ids. rewrite map_map. reflexivity. Qed.
+  Lemma wts_shift c (l : list item) : wts (map (fun x : item => (fst x - c, snd x)) l) = map (fun w => w - c) (wts l).
+  Proof. unfold wts. rewrite !map_map. reflexivity. Qed.
+  Lemma ids_e0 (z : list (item * item)) :
+    ids (map (fun ab : item * item => (fst (fst ab) + fst (snd ab), snd (fst ab))) z) = ids (map fst z).
+  Proof. unfold ids. rewrite !map_map. reflexivity. Qed.
+  Lemma wts_e0 (z : list (item * item)) :
+    wts (map (fun ab : item * item => (fst (fst ab) + fst (snd ab), snd (fst ab))) z)
+    = map (fun ab => fst (fst ab) + fst (snd ab)) z.
+  Proof. unfold wts. rewrite !map_map. reflexivity. Qed.
+
+  (* forward: one step keeps the invariant *)
+  Lemma merge_fwd a b t tuples e : Inv (a :: b :: t) -> kk_merge srt a b = Some (tuples, e) ->
+    Inv (e :: t) /\ Permutation (ids e) (ids a).
+  Proof.
+    intros [I1 [I2 I3]] Hm.
+    pose proof (Forall_inv I3) as [La [Da Sa]]. pose proof (Forall_inv_tail I3) as I3'.
+    pose proof (Forall_inv I3') as [Lb [Db Sb]]. pose proof (Forall_inv_tail I3') as I3t.
+    destruct (merge_facts _ _ _ _ La Lb Hm) as [e1 [c [_ [Pe [De [-> [Zf Zs]]]]]]].
+    set (z := combine a (rev b)) in *.
+    assert (Pid : Permutation (ids (map (fun x : item => (fst x - c, snd x)) e1)) (ids a)).
+    { rewrite ids_shift. unfold ids at 1. rewrite (Permutation_map snd Pe). fold (ids (map (fun ab : item * item => (fst (fst ab) + fst (snd ab), snd (fst ab))) z)).
+      rewrite ids_e0, Zf. reflexivity. }
+    split; [|exact Pid].
+    unfold all_ids in I1, I2. cbn [map concat] in I1, I2.
+    repeat split.
+    - unfold all_ids. cbn [map concat].
+      apply NoDup_app_elim in I1 as [Na [Nbt Dab]]. apply NoDup_app_elim in Nbt as [Nb [Nt Dbt]].
+      apply NoDup_app_intro; auto.
+      + eapply Permutation_NoDup; [apply Permutation_sym; exact Pid|exact Na].
+      + intros i Hi C. apply (Permutation_in _ Pid) in Hi. apply (Dab i Hi). apply in_or_app. now right.
+    - unfold all_ids. cbn [map concat]. intros i Hi. apply I2. apply in_app_or in Hi as [Hi|Hi].
+      + apply in_or_app. left. now apply (Permutation_in _ Pid).
+      + apply in_or_app. right. apply in_or_app. now right.
+    - constructor; [|exact I3t]. split; [|split].
+      + pose proof (Permutation_length Pe) as Le. unfold z, item in *.
+        rewrite map_length in *. rewrite combine_length, rev_length in Le. lia.
+      + rewrite wts_shift. now apply descZ_shift.
+      + rewrite wts_shift. apply spread_shift.
+        eapply spread_perm; [apply Permutation_sym, (Permutation_map fst Pe)|].
+        fold (wts (map (fun ab : item * item => (fst (fst ab) + fst (snd ab), snd (fst ab))) z)).
+        rewrite wts_e0. unfold z. apply zip_spread; auto.
+        * unfold wts. rewrite map_rev. now apply descZ_rev_asc.
+        * unfold wts. rewrite map_rev. intros x y Hx Hy. apply Sb; now apply in_rev.
+  Qed.
+
+  (* backward: undoing one step on the parts array *)
+  Lemma merge_back a b t tuples e P : Inv (a :: b :: t) -> kk_merge srt a b = Some (tuples, e) ->
+    length P = M -> good P (e :: t) ->
+    exists P' c, kk_apply tuples P = Ok P' /\ length P' = M /\ good P' (a :: b :: t)
+      /\ (forall q, (q < k)%nat -> vload P' (N.of_nat q) (a :: b :: t) = vload P (N.of_nat q) (e :: t) + c)
+      /\ (forall Q : N -> Prop, Forall Q P -> Forall Q P').
+  Proof.
+    intros [I1 [I2 I3]] Hm HL G.
+    pose proof (Forall_inv I3) as [La [Da Sa]]. pose proof (Forall_inv_tail I3) as I3'.
+    pose proof (Forall_inv I3') as [Lb [Db Sb]]. pose proof (Forall_inv_tail I3') as I3t.
+    destruct (merge_facts _ _ _ _ La Lb Hm) as [e1 [c [-> [Pe [De [-> [Zf Zs]]]]]]].
+    set (z := combine a (rev b)) in *.
+    set (e0 := map (fun ab : item * item => (fst (fst ab) + fst (snd ab), snd (fst ab))) z) in *.
+    unfold all_ids in I1, I2. cbn [map concat] in I1, I2.
+    apply NoDup_app_elim in I1 as [Na [Nbt Dab]]. apply NoDup_app_elim in Nbt as [Nb [Nt Dbt]].
+    assert (Tf : map fst (map (fun ab : item * item => (snd (fst ab), snd (snd ab))) z) = ids a).
+    { transitivity (ids (map fst z)); [unfold ids; rewrite !map_map; reflexivity|now rewrite Zf]. }
+    assert (Ts : map snd (map (fun ab : item * item => (snd (fst ab), snd (snd ab))) z) = ids (rev b)).
+    { transitivity (ids (map snd z)); [unfold ids; rewrite !map_map; reflexivity|now rewrite Zs]. }
+    assert (Prb : Permutation (ids (rev b)) (ids b)).
+    { unfold ids. apply Permutation_map, Permutation_sym, Permutation_rev. }
+    destruct (kk_apply_spec (map (fun ab : item * item => (snd (fst ab), snd (snd ab))) z) P) as [P' [HP' [HL' [Hcp [Hout HQ]]]]].
+    - intros ia ib Hin. rewrite HL.
+      split; apply I2.
+      + apply in_or_app. left. rewrite <- Tf. apply (in_map fst _ _ Hin).
+      + apply in_or_app. right. apply in_or_app. left. apply (Permutation_in _ Prb). rewrite <- Ts. apply (in_map snd _ _ Hin).
+    - rewrite Ts. eapply Permutation_NoDup; [apply Permutation_sym; exact Prb|exact Nb].
+    - rewrite Tf, Ts. intros i Hi C. apply (Dab i Hi). apply in_or_app. left. now apply (Permutation_in _ Prb).
+    - rewrite Ts in Hout.
+      assert (Hz : forall x y : item, In (x, y) z -> nth_opt P' (snd y) = nth_opt P (snd x)).
+      { intros x y Hxy. apply Hcp. apply (in_map (fun ab : item * item => (snd (fst ab), snd (snd ab))) _ _ Hxy). }
+      assert (Aa : forall i, In i (ids a) -> nth_opt P' i = nth_opt P i).
+      { intros i Hi. apply Hout. intro C. apply (Dab i Hi). apply in_or_app. left. now apply (Permutation_in _ Prb). }
+      assert (At : forall i, In i (concat (map ids t)) -> nth_opt P' i = nth_opt P i).
+      { intros i Hi. apply Hout. intro C. apply (Permutation_in _ Prb) in C. now apply (Dbt i C). }
+      assert (Pid : Permutation (ids (map (fun x : item => (fst x - c, snd x)) e1)) (ids a)).
+      { rewrite ids_shift. unfold ids at 1. rewrite (Permutation_map snd Pe). fold (ids e0).
+        unfold e0. rewrite ids_e0, Zf. reflexivity. }
+      assert (Ge : forall q, (q < k)%nat -> cnti P (N.of_nat q) (ids a) = 1).
+      { intros q Hq. rewrite <- (cnti_perm _ _ _ _ Pid). apply G; [now left|exact Hq]. }
+      exists P', c. split; [exact HP'|]. split; [lia|]. split; [|split].
+      + intros r [<-|[<-|Hr]] q Hq.
+        * rewrite (cnti_ext P' P) by exact Aa. now apply Ge.
+        * rewrite <- (cnti_perm _ _ _ _ Prb). rewrite <- Zs. rewrite (zip_cnti P P' _ z Hz). rewrite Zf. now apply Ge.
+        * rewrite (cnti_ext P' P).
+          -- apply G; [now right|exact Hq].
+          -- intros i Hi. apply At. apply in_concat. exists (ids r). split; [now apply in_map|exact Hi].
+      + intros q Hq. unfold vload. cbn [concat]. rewrite !vsum_app.
+        rewrite (vsum_ext P' P _ a) by exact Aa.
+        rewrite (vsum_ext P' P _ (concat t)) by (intros i Hi; apply At; now rewrite <- ids_concat).
+        rewrite (vsum_perm P' _ b (rev b)) by apply Permutation_rev.
+        rewrite vsum_shift. rewrite (vsum_perm P _ e1 e0 Pe).
+        unfold e0. rewrite (zip_vsum P P' _ z Hz). rewrite Zf, Zs.
+        rewrite <- (ids_shift c e1), (cnti_perm _ _ _ _ Pid), (Ge q Hq). lia.
+      + exact HQ.
+  Qed.
+
+  Lemma kk_back_app s1 s2 P : kk_back (s1 ++ s2) P = bind (kk_back s1 P) (kk_back s2).
+  Proof.
+    revert P; induction s1 as [|ts t IH]; intros P; cbn [app kk_back bind]; auto.
+    destruct (kk_apply ts P) as [P1| | |]; cbn [bind]; auto.
+  Qed.
+
+  (* the loop and the back-tracking, together *)
+  Lemma kk_loop_sound : forall fuel H opp, Inv H -> (length H <= S fuel)%nat ->
+    exists Hf new, kk_loop srt fuel H opp = Ok (Hf, new ++ opp) /\ Inv Hf /\ (length Hf <= 1)%nat
+      /\ (H <> [] -> Hf <> [])
+      /\ forall P, length P = M -> good P Hf ->
+         exists P' c, kk_back new P = Ok P' /\ length P' = M /\ good P' H
+           /\ (forall q, (q < k)%nat -> vload P' (N.of_nat q) H = vload P (N.of_nat q) Hf + c)
+           /\ (forall Q : N -> Prop, Forall Q P -> Forall Q P').
+  Proof.
+    assert (DONE : forall fuel H opp, Inv H -> (length H <= 1)%nat -> kk_loop srt fuel H opp = Ok (H, opp) ->
+      exists Hf new, kk_loop srt fuel H opp = Ok (Hf, new ++ opp) /\ Inv Hf /\ (length Hf <= 1)%nat
+      /\ (H <> [] -> Hf <> [])
+      /\ forall P, length P = M -> good P Hf ->
+         exists P' c, kk_back new P = Ok P' /\ length P' = M /\ good P' H
+           /\ (forall q, (q < k)%nat -> vload P' (N.of_nat q) H = vload P (N.of_nat q) Hf + c)
+           /\ (forall Q : N -> Prop, Forall Q P -> Forall Q P')).
+    { intros fuel H opp I L E. exists H, []. split; [exact E|]. split; [exact I|]. split; [exact L|]. split; [auto|].
+      intros P HL G. exists P, 0. split; [reflexivity|]. split; [exact HL|]. split; [exact G|].
+      split; [intros q _; lia|auto]. }
+    induction fuel as [|f IH]; intros H opp I L.
+    - destruct H as [|a [|b t]]; cbn [length] in L; try lia; apply DONE; auto; cbn; lia.
+    - destruct H as [|a [|b t]]; [apply DONE; auto; cbn; lia|apply DONE; auto; cbn; lia|].
+      cbn [kk_loop].
+      destruct I as [I1 [I2 I3]].
+      pose proof (Forall_inv I3) as [La _]. pose proof (Forall_inv (Forall_inv_tail I3)) as [Lb _].
+      destruct (merge_some a b La Lb) as [[tuples e] Hm]. rewrite Hm.
+      destruct (merge_fwd a b t tuples e (conj I1 (conj I2 I3)) Hm) as [Ie _].
+      pose proof (insert_row_perm e t) as Pr.
+      assert (I' : Inv (insert_row e t)) by (eapply Inv_perm; [apply Permutation_sym; exact Pr|exact Ie]).
+      destruct (IH (insert_row e t) (tuples :: opp) I') as [Hf [new1 [E [If [Lf [Ne HS]]]]]].
+      { rewrite (Permutation_length Pr). cbn [length] in *. lia. }
+      exists Hf, (new1 ++ [tuples]). rewrite <- app_assoc. cbn [app].
+      split; [exact E|]. split; [exact If|]. split; [exact Lf|]. split.
+      { intros _. apply Ne. intro C. apply (f_equal (@length row)) in C. rewrite (Permutation_length Pr) in C. discriminate. }
+      intros P HL G. destruct (HS P HL G) as [P1 [c1 [B1 [L1 [G1 [V1 Q1]]]]]].
+      destruct (merge_back a b t tuples e P1 (conj I1 (conj I2 I3)) Hm L1) as [P2 [c2 [B2 [L2 [G2 [V2 Q2]]]]]].
+      { eapply good_perm; [exact Pr|exact G1]. }
+      exists P2, (c1 + c2). rewrite kk_back_app, B1. cbn [bind kk_back]. rewrite B2. cbn [bind].
+      split; [reflexivity|]. split; [exact L2|]. split; [exact G2|]. split.
+      + intros q Hq. rewrite (V2 q Hq), <- (vload_perm P1 _ _ _ Pr), (V1 q Hq). lia.
+      + intros Q HQ. apply Q2, Q1, HQ.
+  Qed.
+
+  (* `parts[w.1] = i` over the last row *)
+  Lemma kk_init_spec : forall (r : row) i parts,
+    NoDup (ids r) -> (forall id, In id (ids r) -> (id < length parts)%nat) ->
+    exists P, kk_init_parts i r parts = Ok P /\ length P = length parts
+      /\ (forall j, ~ In j (ids r) -> nth_opt P j = nth_opt parts j)
+      /\ (forall q, ((i <= q < i + length r)%nat ->
+                     cnti P (N.of_nat q) (ids r) = 1 /\ exists wq, In wq (wts r) /\ vsum P (N.of_nat q) r = wq)
+                 /\ (~ (i <= q < i + length r)%nat -> cnti P (N.of_nat q) (ids r) = 0 /\ vsum P (N.of_nat q) r = 0))
+      /\ (forall Q : N -> Prop, (forall q, (i <= q < i + length r)%nat -> Q (N.of_nat q)) -> Forall Q parts -> Forall Q P).
+  Proof.
+    induction r as [|[w id] t IH]; intros i parts Hnd Hr; cbn [kk_init_parts].
+    - exists parts. repeat split; auto; cbn in *; lia.
+    - cbn [ids map snd] in Hnd, Hr. fold (ids t) in *. inversion Hnd as [|? ? Hid Hnd']; subst.
+      assert (Hlt : (id < length parts)%nat) by (apply Hr; now left).
+      apply Nat.ltb_lt in Hlt as Hlt'. rewrite Hlt'.
+      destruct (IH (S i) (set_nth parts id (N.of_nat i)) Hnd') as [P [HP [HL [Hout [Hq HQ]]]]].
+      { intros j Hj. rewrite set_nth_length. apply Hr. now right. }
+      rewrite set_nth_length in HL.
+      assert (Pid : nth_opt P id = Some (N.of_nat i)).
+      { rewrite (Hout id Hid). now apply nth_opt_set_nth_same. }
+      exists P. split; [exact HP|]. split; [exact HL|]. split; [|split].
+      + intros j Hj. cbn [ids map snd] in Hj. fold (ids t) in Hj.
+        rewrite Hout by (intro; apply Hj; now right).
+        apply nth_opt_set_nth_other. intro; subst; apply Hj; now left.
+      + intros q. cbn [ids map snd cnti vsum wts fst length]. fold (ids t). fold (wts t). rewrite Pid.
+        destruct (Hq q) as [Hin Hout'].
+        destruct (N.eqb_spec (N.of_nat i) (N.of_nat q)) as [E|E].
+        * assert (i = q) by lia. subst q.
+          destruct Hout' as [C0 V0]; [lia|]. rewrite C0, V0. split.
+          -- intros _. split; [lia|]. exists w. split; [now left|lia].
+          -- intros C. lia.
+        * split.
+          -- intros Hrange. destruct Hin as [C1 [wq [Hwq V1]]]; [lia|]. rewrite C1, V1.
+             split; [lia|]. exists wq. split; [now right|lia].
+          -- intros Hrange. destruct Hout' as [C0 V0]; [lia|]. rewrite C0, V0. lia.
+      + intros Q HQr HQp. apply HQ.
+        * intros q Hq'. apply HQr. cbn [length]. lia.
+        * apply Forall_set_nth; auto. apply HQr. cbn [length]. lia.
+  Qed.
+End KWayProofs.
